@@ -28,6 +28,17 @@ def run(ctx):
                 op["h"] = f
             ops.append(op)
         scs.append({"seed": i, "profile": "c07-inplace", "root": "root", "tree": gen.tree_dict(fs), "ops": ops})
+    # entries that the history's own patterns (or -i on the verify command line) exclude do not contribute
+    for i in range(ctx.scale(12, 150)):
+        fs = gen.FsSim()
+        gen.gen_tree(rnd, fs, max_depth=rnd.choice([1, 2]))
+        d = rnd.choice(sorted(fs.dirs))
+        fs.files[(d + "/" if d else "") + "scratch.tmp"] = "ignored content %d" % i
+        fs.files["keep.bak"] = "ignored backup"
+        pats = rnd.choice([["*.tmp"], ["*.tmp", "*.bak"], ["keep.bak"]])
+        ops = [{"op": "create", "at": "", "h": gen.fmt_subset(rnd, (1, 2)), "now": "2026-03-01 12:00:01", "i": pats}, {"op": "verifydh", "at": "", "co": True}, {"op": "verifydh", "at": ""},
+               {"op": "create", "at": "", "h": gen.fmt_subset(rnd, (1, 2)), "now": "2026-03-01 12:00:02"}, {"op": "verifydh", "at": "", "co": True, "i": ["*.bak"]}]
+        scs.append({"seed": i, "profile": "c07-ignored", "root": "root", "tree": gen.tree_dict(fs), "ops": ops})
     return _scn.run_scn(ctx, scs, M.m_c07, assumptions=["reference evaluation of the compositional definition with the libraries' one-shot digests (harness/oracles.py ref_dirhashes)"])
 
 
